@@ -1,15 +1,44 @@
-#!/bin/sh
+#!/bin/bash
 # tools/coverage.sh [props...]  — development aid: which statements of /repo do the quick checks execute?
-# Builds the workers with -cover (VERIF_COVER=1), runs the quick tier of the given (default: all) properties
-# with GOCOVERDIR set, and prints the statements of the non-test repository files that were never executed.
-# Coverage data and report live under /tmp/verif-cov (scratch; nothing registered in MANIFEST.json needs it).
+# `go build -cover` ignores -overlay, so the overlays are materialised: /repo is copied to scratch, the
+# overlay files (instrumented sources for Engine A, seams for Engine B) are written into two copies, the
+# worker binaries are built from those with -cover, and every job of the quick tier is run once
+# (single shard, 60 s budget) with GOCOVERDIR set. Everything lives under /tmp/verif-cov (scratch).
 set -u
 export GOFLAGS=-mod=mod GOPROXY=off GOSUMDB=off GOTOOLCHAIN=local
-cov=/tmp/verif-cov; rm -rf $cov; mkdir -p $cov/data
+cov=/tmp/verif-cov; rm -rf $cov; mkdir -p $cov
 props=${*:-C01 C02 C03 C04 C05 C06 C07 C08 C09 C10 C11 C12 C13 C14 C15 C16 C17 C18 C19 C20}
+/verif/bin/check build >/dev/null 2>&1 || { echo "build failed"; exit 2; }
+b=/verif/.build/$(ls -t /verif/.build | grep '^h-' | grep -v cover | head -1)
+for eng in A B; do
+  rsync -a --exclude .git /repo/ $cov/repo$eng/
+  rsync -a --exclude .build /verif/mc/ $cov/mc$eng/
+  sed -i "s#=> /repo#=> $cov/repo$eng#" $cov/mc$eng/go.mod
+done
+python3 - "$b" "$cov" <<'PY'
+import json,sys,os,shutil
+b,cov=sys.argv[1:3]
+for eng,f in (('A',b+'/instr/overlay.json'),('B',b+'/seams.json')):
+    o=json.load(open(f))['Replace']
+    for dst,src in o.items():
+        assert dst.startswith('/repo/')
+        d=cov+'/repo'+eng+dst[len('/repo'):]
+        os.makedirs(os.path.dirname(d),exist_ok=True)
+        shutil.copy(src,d)
+PY
+(cd $cov/mcA && go build -cover -coverpkg=all -o $cov/mcsched ./cmd/mcsched) || exit 2
+(cd $cov/mcB && go build -cover -coverpkg=all -o $cov/mcseq ./cmd/mcseq) || exit 2
 for p in $props; do
   mkdir -p $cov/data/$p
-  VERIF_COVER=1 GOCOVERDIR=$cov/data/$p /verif/bin/check $p --tier quick 2>&1 | grep -E "^OK|VIOLATION|harness" | cut -c1-160
-  go tool covdata textfmt -i=$cov/data/$p -o $cov/$p.txt 2>/dev/null
+  for sc in $($cov/mcsched -list -prop $p | python3 -c "import json,sys; [print(x['Name']) for x in json.load(sys.stdin)]" 2>/dev/null); do
+    GOMAXPROCS=1 GOCOVERDIR=$cov/data/$p timeout 900 $cov/mcsched -prop $p -scenario "$sc" -tier quick -bound 1 -fbound 1 -budget 20 >/dev/null 2>&1 &
+    while [ $(jobs -r | wc -l) -ge 14 ]; do sleep 0.5; done
+  done
+  for pt in $($cov/mcseq -list -prop $p | python3 -c "import json,sys; [print(x['Name']) for x in json.load(sys.stdin)]" 2>/dev/null); do
+    GOMAXPROCS=2 GOCOVERDIR=$cov/data/$p timeout 600 $cov/mcseq -prop $p -part "$pt" -tier quick -shard 0 -nshards 1 -budget 90 >/dev/null 2>&1 &
+    while [ $(jobs -r | wc -l) -ge 14 ]; do sleep 0.5; done
+  done
 done
+wait
+for p in $props; do go tool covdata textfmt -i=$cov/data/$p -o $cov/$p.txt 2>/dev/null; done
 python3 /verif/tools/coverage_report.py $cov $props
